@@ -45,7 +45,7 @@ func (e *Engine) genVC(fn *ssa.Function, con *Contract, prop string) (res *FuncR
 		vals: map[ssa.Value]SVal{}, R: map[*ssa.BasicBlock]string{}, memOut: map[*ssa.BasicBlock]*Mem{},
 		keySort: map[string]Sort{}, keyType: map[string]types.Type{}, declared: map[string]bool{}, ord: map[string]int{},
 		params: map[string]SVal{}, mem0: &Mem{m: map[string]string{}}, debug: map[string][]debugBinding{},
-		lets: map[string]SVal{}, usedCon: map[string]bool{}, uncontracted: map[string]bool{}, assertDone: map[string]bool{}, crossAssumed: map[string]bool{},
+		lets: map[string]SVal{}, usedCon: map[string]bool{}, uncontracted: map[string]bool{}, assertDone: map[string]bool{}, crossAssumed: map[string]bool{}, aliases: map[int][]memAlias{}, boundOut: map[*ssa.BasicBlock]string{}, epochBound: map[int]string{},
 	}
 	defer func() {
 		if r := recover(); r != nil {
@@ -248,17 +248,25 @@ func (vc *VC) mergeMems(conds []string, mems []*Mem) *Mem {
 			out.m[k] = terms[0]
 			continue
 		}
-		t := terms[len(terms)-1]
-		for i := len(terms) - 2; i >= 0; i-- {
-			t = ite(conds[i], terms[i], t)
-		}
-		out.m[k] = vc.def("Mj_"+k, memSort(leaf), t)
+		out.m[k] = vc.joinMem(k, leaf, conds, terms)
 	}
 	return out
 }
 
+// joinMem: the memory after a control-flow join is a fresh array constant that EQUALS the
+// memory of whichever incoming edge was taken (guarded equalities rather than an ite term, so
+// that quantifier triggers over the incoming memories also fire on the joined one).
+func (vc *VC) joinMem(key string, leaf Sort, conds, terms []string) string {
+	name := vc.declare(vc.sym("Mj_"+key), memSort(leaf))
+	for i := range terms {
+		vc.fact(conds[i], eq(name, terms[i]))
+	}
+	return name
+}
+
 func (vc *VC) execBlock(b *ssa.BasicBlock) {
 	vc.cur = b
+	vc.blockBound(b)
 	if l, isHeader := vc.loops[b]; isHeader {
 		vc.enterLoop(b, l)
 	} else if b.Index == 0 {
@@ -317,6 +325,7 @@ func (vc *VC) execBlock(b *ssa.BasicBlock) {
 		vc.execInstr(ins)
 	}
 	vc.memOut[b] = vc.curMem
+	vc.boundOut[b] = vc.curBound()
 	// back edges: invariant preservation
 	for _, s := range b.Succs {
 		if vc.isBack(b, s) {
